@@ -502,8 +502,20 @@ def run(chk):
             g.clear()
 
     # ---- (a) + (b): trees
-    trees = [("plain", g.plain(rng.choice([0, 1, 2, 3, 4]))) for _ in range(n_plain)]
-    trees += [("mixed", g.mixed(rng.choice([1, 2, 3]), bad=rng.choice([0.0, 0.0, 0.08]))) for _ in range(n_mixed)]
+    gen_errors = []
+
+    def safely(origin, make):
+        """a generator that builds models calls the constructors of the code under test: if one raises, note it and go on"""
+        try:
+            return [(origin, make())]
+        except Exception as e:  # noqa
+            gen_errors.append("%s: %s: %s" % (origin, type(e).__name__, str(e)[:100]))
+            return []
+    trees = []
+    for _ in range(n_plain):
+        trees += safely("plain", lambda: g.plain(rng.choice([0, 1, 2, 3, 4])))
+    for _ in range(n_mixed):
+        trees += safely("mixed", lambda: g.mixed(rng.choice([1, 2, 3]), bad=rng.choice([0.0, 0.0, 0.08])))
     trees += [("plain", v) for v in HASHABLE_ATOMS] + [("plain", x) for x in ([], (), set(), {}, [[]], {1: {2: {3: set()}}},
                                                                              {complex(1, -0.0): -0.0}, [float("nan")] * 2)]
     trees += [("aliased", v) for v in aliased_values(g, rng, 300 if thorough else 60)]
@@ -599,8 +611,12 @@ def run(chk):
     # ---- (d) object graphs, several roots one after the other
     hlines, hinfo = [], []
     for _ in range(n_heap):
-        nodes, roots = g.heap()
-        objs = build_graph(nodes)
+        try:
+            nodes, roots = g.heap()
+            objs = build_graph(nodes)
+        except Exception as e:  # noqa
+            gen_errors.append("graph: %s: %s" % (type(e).__name__, str(e)[:100]))
+            continue
         on_cycle, reach_cycle = cyclic_roots(nodes)
         real = []
         for r in roots:
@@ -681,6 +697,8 @@ def run(chk):
         seen_bad.append("after the worker threads")
         g_main.clear()
     chk.extra["worker_thread_promotions"] = len(jobs_all)
+    chk.obligation("the generators built their inputs without a hy.models constructor raising", not gen_errors,
+                   "%d times, e.g. %s" % (len(gen_errors), "; ".join(gen_errors[:3])))
     chk.obligation("hy.models._seen is empty after every call of the interleaved history (%d calls)" % (len(info) + len(hinfo)),
                    not seen_bad, "; ".join(seen_bad[:3]))
     if seen_bad:
